@@ -458,7 +458,21 @@ fn run(args: &Args) {
                         sys.in_txn = false;
                     }
                     let cloud = sys.world.cloud.is_some();
-                    match catch_unwind(AssertUnwindSafe(|| if cloud { sys.cloud_restart() } else { sys.world.restart(&sys.node_id) })) {
+                    // half of the restarts the way the daemon starts: HandlerBuilder::build with its
+                    // configured initial allowlist ("only used if node is new")
+                    let via_builder = !cloud && rng.chance(1, 2);
+                    match catch_unwind(AssertUnwindSafe(|| {
+                        if cloud {
+                            sys.cloud_restart()
+                        } else if via_builder {
+                            use vls_protocol_signer::handler::HandlerBuilder;
+                            let b = HandlerBuilder::new(sys.world.config.network, 0, sys.world.services(), sys.world.seed)
+                                .allowlist(vec![ADDRS[0].to_string(), ADDRS[2].to_string()]);
+                            b.build().expect("HandlerBuilder::build").node().clone()
+                        } else {
+                            sys.world.restart(&sys.node_id)
+                        }
+                    })) {
                         Ok(n) => {
                             sys.node = n;
                             // what the restored tracker holds decides which blocks can still be disconnected
